@@ -161,7 +161,7 @@ func memoryProbe(kind string) (delta int64, res string) {
 
 func runC08(ctx *runCtx) {
 	ctx.rep.Rule = "limits L in {0,1,125,4096,default(untouched),-1, 1MiB in thorough} x 1..3 messages sized L-1, L, L+1, 2L, random (any fragmentation, compressed and not, control frames inside), " +
-		"limit changes between messages, both roles; ground truth: messages <= L delivered in full, the first message > L fails after at most L+1 bytes (a prefix) and a Close 1009 is written; " +
+		"limit changes between messages (finite to finite, unlimited to finite, finite to unlimited), both roles; ground truth: messages <= L delivered in full, the first message > L fails after at most L+1 bytes (a prefix) and a Close 1009 is written; " +
 		"plus memory probes through Conn.Read (frames declaring 2^62 / 128 MiB bytes but delivering 1000, under limits 4096, 1 GiB and -1; an 8 MiB -> ~8 KiB compression bomb under a 4096-byte limit) measured with runtime.MemStats, panics observed. distinct = (L, sizes, role, flate)"
 	if replayRead(ctx) {
 		return
@@ -182,13 +182,24 @@ func runC08(ctx *runCtx) {
 	// limit change between messages: first message under limit A, then limit B applies to the second
 	for i := 0; i < per; i++ {
 		A, B := int64(100+rng.Intn(100)), int64(rng.Intn(50))
+		// also: from unlimited to a finite limit (the new limit must apply) and from a finite limit to unlimited
+		unlimitedFirst, unlimitedSecond := i%4 == 1, i%4 == 3
 		o := randOpts(rng, 10)
 		o.CtlProb, o.BFinalProb, o.MaxMsgs = 0, 0, 2
+		s1 := int(A) - rng.Intn(50)
 		s2 := int(B) + rng.Intn(3) - 1
 		if s2 < 0 {
 			s2 = 0
 		}
-		o.Sizes = []int{int(A) - rng.Intn(50), s2}
+		if unlimitedFirst {
+			A = -1
+			s1 = 300 + rng.Intn(3000)
+		}
+		if unlimitedSecond {
+			B = -1
+			s2 = 500 + rng.Intn(40000)
+		}
+		o.Sizes = []int{s1, s2}
 		var gs *genStream
 		for {
 			gs = buildValid(rng, o)
@@ -200,7 +211,7 @@ func runC08(ctx *runCtx) {
 		c.Limit, c.Limit2, c.ChangeAfter = &A, &B, 1
 		b, _ := gs.encode()
 		c.Stream = hex.EncodeToString(b)
-		if int64(s2) > B {
+		if B >= 0 && int64(s2) > B {
 			stop := 0
 			for i, f := range gs.Frames {
 				if f.Msg == 1 {
